@@ -476,6 +476,35 @@ impl WorldC {
                 if kind == "vote" {
                     let id = v["vote"]["proposal_id"].as_u64().unwrap_or(0);
                     let ps = pre_status(id);
+                    // C15: whatever call returns a deposit, it goes to the proposer, once, and only for a proposal
+                    // that was executed or (refunds enabled) has failed
+                    if let Some(t) = m.props.get(&id).cloned() {
+                        if let Some(d) = &t.deposit {
+                            let refund = refund_msg(d, &t.proposer);
+                            let n = resp.messages.iter().filter(|s| s.msg == refund).count();
+                            if n > 0 {
+                                let post_status = f.post.cw3().and_then(|s| s.statuses.iter().find(|x| x.0 == id).map(|x| x.1.clone()));
+                                let failed = post_status.as_deref() == Some("Rejected");
+                                if !(failed && d.refund_failed_proposals) {
+                                    self.viol(
+                                        out,
+                                        "C15",
+                                        "deposit-returned-improperly",
+                                        json!({"call": "vote"}),
+                                        format!("Vote on {} returned the deposit although the proposal is {:?} (refunds for failed proposals: {})", id, post_status, d.refund_failed_proposals),
+                                    );
+                                }
+                                if committed {
+                                    let tr = self.msigs[mi].props.get_mut(&id).unwrap();
+                                    tr.refunded += n as u32;
+                                    let rf = tr.refunded;
+                                    if rf > 1 {
+                                        self.viol(out, "C15", "refunded-twice", json!({"call": "vote"}), format!("deposit of {} returned {} times", id, rf));
+                                    }
+                                }
+                            }
+                        }
+                    }
                     if let Some(t) = m.props.get(&id) {
                         let exp: Option<Expiration> = serde_json::from_value(t.content["expires"].clone()).ok();
                         if let Some(e) = exp {
@@ -698,6 +727,30 @@ impl WorldC {
                                     json!({"views": "point-vs-list"}),
                                     format!("proposal {}: Proposal{{}} says {:?}, ListProposals says {:?}", p.id, pp.status, p.status),
                                 );
+                            }
+                            // every view of a proposal is held to what was fixed at its creation (the listing is
+                            // checked in check_proposal; here the point query)
+                            if let Some(t) = self.msigs[mi].props.get(&p.id).cloned() {
+                                if let Ok(th0) = serde_json::from_value::<ThresholdResponse>(t.content["threshold"].clone()) {
+                                    if total_of(&pp.threshold) != total_of(&th0) {
+                                        self.viol(
+                                            out,
+                                            "C06",
+                                            "total-altered-after-creation",
+                                            json!({"view": "point-query"}),
+                                            format!("proposal {}: Proposal{{}} reports total weight {} but it was opened against {}", p.id, total_of(&pp.threshold), total_of(&th0)),
+                                        );
+                                    }
+                                    if pp.threshold != th0 || serde_json::to_value(&pp.msgs).ok() != Some(t.content["msgs"].clone()) || serde_json::to_value(pp.expires).ok() != Some(t.content["expires"].clone()) {
+                                        self.viol(
+                                            out,
+                                            "C05",
+                                            "content-changed",
+                                            json!({"view": "point-query"}),
+                                            format!("proposal {}: Proposal{{}} reports content / threshold / expiry other than at creation", p.id),
+                                        );
+                                    }
+                                }
                             }
                         }
                         Err(abort) => {
